@@ -283,7 +283,7 @@ class ShowSingletonsMismatch(Exception):
 _runs = [0]
 
 
-def run_history(nslots, ops, watch):
+def run_history(nslots, ops, watch, quiet=0):
     build_zoo()
     was = gc.isenabled()
     if _runs[0] % 512 == 0:
@@ -295,9 +295,10 @@ def run_history(nslots, ops, watch):
         reset()
         m = Machine(nslots, watch)
         out = []
-        for op in ops:
+        for k, op in enumerate(ops):
             outcome = m.run_op(op)
-            out.append(m.observe(outcome))
+            if k >= quiet:
+                out.append(m.observe(outcome))
         return out
     finally:
         m = None
@@ -313,16 +314,16 @@ def register(op):
 
     @op("history")
     def _(a):
-        _, nslots, ops, watch = a
-        return run_history(nslots, ops, watch)
+        _, nslots, ops, watch, quiet = a
+        return run_history(nslots, ops, watch, quiet)
 
     @op("histories")
     def _(a):
-        _, nslots, hs, watch = a
+        _, nslots, hs, watch, quiet = a
         out = []
         for ops in hs:
             try:
-                out.append(run_history(nslots, ops, watch))
+                out.append(run_history(nslots, ops, watch, quiet))
             except Exception as e:       # a broken observation is an outcome of that history only
                 out.append(Err(type(e).__name__))
         return out
